@@ -242,14 +242,26 @@ def pair_program(dialect, fam, pn, an, bn, chain=False):
 
 
 def dup_program(dialect, fam, pn, an, bn, how):
-    """r = prime; d = duplicate(r); x = A(d); y = B(r); z = A(r): a continuation on the duplicate, then two on the original."""
+    """r = prime; d = duplicate(r); x = A(d); y = B(r); z = A(r): a continuation on the duplicate, then two on the original.
+
+    bn == "join-same-table-object" (deepcopy / pickle only): the original joins the very Table object of its FROM clause, which
+    gives that object its automatic alias in place (permitted by C01 for the argument); a deep duplicate holds its own copy of
+    the table and must not notice - only the duplicate and its continuation are judged."""
     primes, actions = families(dialect)[fam]
     prime = dict(primes)[pn]
-    A, B = dict(actions)[an], dict(actions)[bn]
+    A = dict(actions)[an]
     p = P()
     T = tables(p)
     r = prime(p, T)
     d = p.dup(how, r)
+    if bn == "join-same-table-object":
+        # (continuations of the duplicate would have to name columns through the original's table object, whose alias has just
+        #  changed: only the duplicate itself is judged)
+        r2 = A(p, r, T)
+        d2 = p.dup(how, r2)
+        y = p.call(p.call(r2, "join", T["t1"]), "on", _eq(p, _f(p, T["t1"], "id"), _f(p, T["t1"], "id")))
+        return p.prog(dialect=dialect, pair="%s/%s/%s/%s/%s" % (fam, pn, an, bn, how)), [], [d.i, d2.i]
+    B = dict(actions)[bn]
     x = A(p, d, T)
     y = B(p, r, T)
     z = A(p, r, T)
